@@ -81,8 +81,10 @@ def mutate_classic(rnd, lines):
     for k in (3, 5, 6, 7, 11, 12, 17):
         if rnd.random() < 0.5:
             ls[k] = ls[k][:65] + b"   " + _rand_num(rnd, 6).encode()
-    if rnd.random() < 0.5:
-        ls[10] = ls[10][:65] + str(rnd.randrange(0, nk + 1)).encode() + (".%02d" % rnd.randrange(0, 100)).encode()
+    if rnd.random() < 0.7:      # yield organ digit + fraction with 1..4 decimals, or exactly 1.0
+        nd = rnd.randrange(1, 6)
+        frac = "1.0" if nd == 5 else ".%0*d" % (nd, rnd.randrange(0, 10 ** nd))
+        ls[10] = ls[10][:65] + str(rnd.randrange(0, nk + 1)).encode() + frac.encode()
     if rnd.random() < 0.3:      # N-content function 5 with its tokens in the text part of the line
         toks = " a=%s b=-%s org=S%d " % (_rand_num(rnd, 5), _rand_num(rnd, 5), rnd.randrange(0, 5))
         if rnd.random() < 0.3:
@@ -123,10 +125,14 @@ def _scale(rnd, text):
     return ("%.*f" % (dec, v * rnd.uniform(0.8, 1.2))).encode()
 
 
-def mutate_gentle(rnd, lines):
-    """a plausible variant for whole runs: numeric fields scaled by up to 20 %, partition rows untouched"""
+def mutate_gentle(rnd, lines, yifak=None):
+    """a plausible variant for whole runs: numeric fields scaled by up to 20 %, partition rows untouched; yifak = number of
+    decimals of the yield-organ fraction (5: exactly 1.0)"""
     ls = list(lines)
     nk, ne = F.classic_dims(ls)
+    if yifak and len(ls[10]) > 65:
+        frac = "1.0" if yifak == 5 else ".%0*d" % (yifak, rnd.randrange(10 ** (yifak - 1), 10 ** yifak) | 1)
+        ls[10] = ls[10][:66] + frac.encode()
     idx = [3, 5, 6, 7, 11, 12, 17] + [19 + 13 * i + off for i in range(ne) for off in (1, 2, 6, 7, 8, 9, 12)]
     for k in idx:
         if rnd.random() < 0.5:
@@ -148,7 +154,7 @@ def _run_variants(ctx):
     out = []
     for k in range(150 if ctx.thorough else 12):
         fn, abbr, var = rnd.choice(files)
-        ls = mutate_gentle(rnd, F.read_lines(os.path.join(par, fn)))
+        ls = mutate_gentle(rnd, F.read_lines(os.path.join(par, fn)), yifak=[3, 4, 1, 2, 5, 3][k % 6])
         out.append(("%s~g%d" % (fn, k), fn, b"\n".join(ls) + b"\n"))
     return out
 
@@ -801,7 +807,11 @@ def _weather_clause(ctx, env, rnd, search):
         def mod(date, **kv):
             return [(d, dict(r, **kv) if d == date else r) for d, r in ser]
         ymid = y0 + 1 + rnd.randrange(max(1, y1 - y0 - 1))
+        serx = F.read_weather_csv(src, y0, y1 + 1)         # the series continues into the next year
+        PA = _copy.deepcopy(P)                             # yearly output on 31.12 and end on 31.12: the run goes on to 1 January
+        PA.annual = (12, 31)
         variants = [("plain", ser, (0, 1, 2), None),
+                    ("annual-3112", serx, (0, 1, 2), None),
                     ("start-1jan", ser, (0, 1, 2), None),
                     ("heights", ser, (0, 1), None),          # third header line: station height, wind height 10 m
                     ("preco", ser, (0, 1, 2), None),         # monthly precipitation correction (shipped preco.txt)
@@ -826,7 +836,7 @@ def _weather_clause(ctx, env, rnd, search):
                         else:
                             pf_.write("Mo Corr\n" + "\n".join("%2d %s" % (m_ + 1, fac[m_]) for m_ in range(12)))
                 nm = "wx%d_%s_%d" % (k, vname.replace("-", ""), lay)
-                Q = P1 if vname == "start-1jan" else P
+                Q = P1 if vname == "start-1jan" else PA if vname == "annual-3112" else P
                 F.write_project(env, nm, Q, cfg=keys)
                 lines.append(F.line_for(nm, Q, fcode="X"))
                 idx[lay] = len(lines) - 1
